@@ -18,6 +18,7 @@ type engCfg struct {
 	multiThread bool
 	bigLedger   bool // few travellers, many flights: ledgers beyond 100 entries
 	trialDays   int  // first days without debiting
+	paramChanges bool // the administrator changes parameters (incl. the promises algorithm) during the run
 	strictDaily bool // C17: exactly one update per day, same-day in-order check-ins, no traveller close/reopen
 }
 
@@ -114,8 +115,24 @@ func genEngine(rng *Rng, workdir string, proj string, cfg engCfg) *engSession {
 	}
 	for d := 0; d < cfg.days; d++ {
 		now := day * 86400
-		if cfg.restarts && rng.Chance(1, 4) {
+		if doRestart := rng.Chance(1, 4); cfg.restarts && doRestart {
 			s.restart()
+		}
+		if cfg.paramChanges && rng.Chance(1, 12) {
+			// the administrator changes the promises algorithm (also to "none" and back) or other settings
+			switch rng.Intn(4) {
+			case 0:
+				p.Promises.Algo = 0
+			case 1:
+				p.Promises.Algo = flap.PromisesAlgo(1 + rng.Intn(2))
+			case 2:
+				p.Promises.Algo ^= 0x20
+			default:
+				p.DailyTotal = p.DailyTotal * flap.Kilometres(0.5+rng.F01())
+				p.Promises.MaxPoints = uint32(rng.Range(2, 12))
+			}
+			s.setParams(p)
+			s.checkAdmin()
 		}
 		if cfg.strictDaily {
 			s.update(now)
